@@ -27,6 +27,22 @@ theorem golomb_roundtrip (P : Nat) (ds : List Nat) (hb : ∀ x ∈ ds, x < 2 ^ 6
     Lemmas.readN P ds.length (golombEncodeAll P ds ++ pad) = some (ds, pad) :=
   Lemmas.readN_golombEncodeAll P ds hb pad
 
+/-- The Golomb-Rice code is prefix-free on 64-bit values: equal streams start with equal values. -/
+theorem golomb_prefix_free (P x y : Nat) (hx : x < 2 ^ 64) (hy : y < 2 ^ 64) (r r' : List Bool)
+    (h : golombEncode P x ++ r = golombEncode P y ++ r') : x = y ∧ r = r' := by
+  have a := Lemmas.readFull_golombEncode P x hx r
+  rw [h, Lemmas.readFull_golombEncode P y hy r'] at a
+  simp only [Option.some.injEq, Prod.mk.injEq] at a
+  exact ⟨a.1.symm, a.2.symm⟩
+
+/-- code length: quotient + 1 + P bits -/
+theorem golomb_length (P x : Nat) : (golombEncode P x).length = x / 2 ^ P + 1 + P := by
+  have hb : ∀ p y, (beBits p y).length = p := by
+    intro p y; induction p with
+    | zero => rfl
+    | succ p ih => simp [beBits, ih]
+  simp [golombEncode, hb]; omega
+
 /-- The builder's write loop over an ascending list is BIP158's `golomb_encode` of the differences. -/
 theorem encode_eq_spec (P : Nat) (vs : List Nat) (hs : vs.Pairwise (fun a b => a ≤ b))
     (hb : ∀ x ∈ vs, x < 2 ^ 64) :
